@@ -81,7 +81,7 @@ def unparse(p, ctx="top"):
     if k == "letf":
         return "let " + p["w"] + " := {" + unparse(p["a"], "top") + "};"
     if k == "bapply":
-        txt = "{" + unparse(p["a"], "top") + "} apply"
+        txt = "{" + _ids(p.get("ids", [])) + unparse(p["a"], "top") + "} apply"
         return par(txt) if ctx == "stmt" else txt
     if k == "block":
         return "{" + _ids(p["ids"]) + unparse(p["a"], "top") + "}"
